@@ -39,9 +39,36 @@ def verdict (c impl : Nat) : String :=
       | none => s!"FAIL index {i} out of range"
   else s!"FAIL result {impl} is not an indexed colour"
 
+/-- `asrange <r> <g>`: all 256 direct colours RGB(r,g,0..255); impl = 256 palette indices, two hex
+    digits each. One output line for the whole range: the canon forms are `n=256` when every colour's
+    chosen-entry score agrees (else the first disagreement), the verdict is the first oracle failure. -/
+def rangeStep (r g : Nat) (impl : String) : String :=
+  match hexBytes? impl with
+  | none => "bad-op\tbad-op\tbad-op"
+  | some idx =>
+    if idx.length ≠ 256 then "bad-op\tbad-op\tbad-op" else
+    let rec go (b : Nat) (is : List Nat) (mc ic v : Option String) : Option String × Option String × Option String :=
+      match is with
+      | [] => (mc, ic, v)
+      | i :: rest =>
+        let c := rgbColor r g b
+        let res := indexColor i
+        let m := canon c (asIndex c)
+        let k := canon c res
+        let vd := verdict c res
+        let (mc', ic') := if mc.isNone ∧ m ≠ k then (some s!"b={b}:{m}", some s!"b={b}:{k}") else (mc, ic)
+        let v' := if v.isNone ∧ vd ≠ "ok" then some (s!"FAIL RGB({r},{g},{b}): " ++ (vd.drop 5).toString) else v
+        go (b + 1) rest mc' ic' v'
+    let (mc, ic, v) := go 0 idx none none none
+    s!"{mc.getD "n=256"}\t{ic.getD "n=256"}\t{v.getD "ok"}"
+
 def step (line : String) : String :=
   let (op, impl) := splitTab line
   match fields op, impl.toNat? with
+  | ["asrange", r, g], _ =>
+      match r.toNat?, g.toNat? with
+      | some r, some g => rangeStep r g impl
+      | _, _ => "bad-op\tbad-op\tbad-op"
   | ["asindex", c], some r =>
       match c.toNat? with
       | some c => s!"{canon c (asIndex c)}\t{canon c r}\t{verdict c r}"
